@@ -158,6 +158,15 @@ func (s *Server) serve(ctx context.Context, listener net.Listener, handler Modbu
 			return err
 		}
 
+		// context is checked before connection is announced to OnAcceptConnFunc. From that point on the connection
+		// goes through the whole lifecycle (including OnCloseConnFunc).
+		select {
+		case <-ctx.Done():
+			_ = netConn.Close()
+			return ErrServerClosed
+		default:
+		}
+
 		if s.OnAcceptConnFunc != nil {
 			if err := s.OnAcceptConnFunc(ctx, netConn.RemoteAddr(), uint64(s.activeConnectionCount.Load()+1)); err != nil {
 				if err := netConn.Close(); err != nil {
@@ -165,12 +174,6 @@ func (s *Server) serve(ctx context.Context, listener net.Listener, handler Modbu
 				}
 				continue
 			}
-		}
-
-		select {
-		case <-ctx.Done():
-			return ErrServerClosed
-		default:
 		}
 
 		cCtx := context.WithValue(ctx, ContextRemoteAddr{}, netConn.RemoteAddr())
